@@ -72,6 +72,12 @@ def gen_table(rng, family, base):
         return _shuffle_q(rng, K)
     if family == "large":
         K = {}
+        if rng.random() < 0.15:
+            # every element, and charged variants on top: 130-300 keys, more than any fixed-size memo holds
+            for el in ELEMENTS:
+                K[el] = rng.choice((1, 2, 3, 4, 4, 5, 6, 8))
+            for _ in range(rng.randint(15, 180)):
+                K[key_of(rng.choice(ELEMENTS), rng.choice((1, -1, 2, -2, 3, -3)))] = rng.choice((0, 1, 2, 3, 4, 5, 6, 7))
         for _ in range(rng.randint(10, 40)):
             el = rng.choice(ELEMENTS) if rng.random() < 0.6 else rng.choice(COMMON)
             K[key_of(el, rng.choice((0, 0, 0, 1, -1, 2, -2, 3)))] = rng.choice((0, 1, 2, 3, 4, 5, 6, 7, 8, 9, 10, 11, 12, 13, 14, 16, 20))
@@ -415,6 +421,40 @@ def gen_smiles(rng, ctx):
     return None, rng.choice(SMILES_BAD)
 
 
+_RING_TOK = re.compile(r"\[[^\]]*\]|([=#:\-]?)(%\d\d|\d)")
+
+
+def ring_symbol_spellings(rng, s):
+    """-> (spelling 1, spelling 2) of ``s`` that differ only in the end(s) of one ring closure on
+    which its bond symbol is written; None if ``s`` has no ring closure fit for that (directional
+    bonds are left alone).  If the closure carries no symbol, one is put there first (the
+    molecule changes, both spellings change alike)."""
+    open_, pairs = {}, []
+    for m in _RING_TOK.finditer(s):
+        if m.group(2) is None:
+            continue
+        if m.start() > 0 and s[m.start() - 1] in "/\\":
+            open_.pop(m.group(2), None)
+            continue
+        lab = m.group(2)
+        if lab in open_:
+            pairs.append((open_.pop(lab), m))
+        else:
+            open_[lab] = m
+    pairs = [(a, b) for a, b in pairs if not (a.group(1) and b.group(1) and a.group(1) != b.group(1))]
+    if not pairs:
+        return None
+    a, b = rng.choice(pairs)
+    sym = a.group(1) or b.group(1) or rng.choice(("=", "=", "-", ":", "#"))
+
+    def spell(x, y):
+        return (s[:a.start()] + (sym if x else "") + a.group(2) + s[a.end():b.start()]
+                + (sym if y else "") + b.group(2) + s[b.end():])
+    forms = [spell(1, 0), spell(0, 1), spell(1, 1)]
+    rng.shuffle(forms)
+    return forms[0], forms[1]
+
+
 # ---------------------------------------------------------------------------
 # histories
 # ---------------------------------------------------------------------------
@@ -630,6 +670,7 @@ class _GenState:
                 yield from self.query(idx)
             else:
                 op = dict(rng.choice(self.all_calls[-12:]))
+                op.pop("same_as", None)        # the relation holds next to the original, under one table
                 u = rng.random()
                 if u < 0.35:
                     pass
@@ -769,6 +810,19 @@ class _GenState:
         self.recent_inputs.append(dict(op))
         self.all_calls.append(dict(op))
         yield op
+        if allow_extra and op["op"] == "encode" and rng.random() < 0.25:
+            # the same string with the bond symbol of one ring closure written on the opening digit,
+            # on the closing digit, or on both (OpenSMILES: either or both ends) - three spellings
+            # of one molecule, whatever that molecule is; no ground truth needed, only agreement
+            pair = ring_symbol_spellings(rng, op["s"])
+            if pair:
+                a = {"op": "encode", "s": pair[0], "strict": True, "attribute": False, "why": "ringsym"}
+                self.all_calls.append(dict(a))
+                yield a
+                b = dict(a, s=pair[1], same_as=idx + 1)
+                self.all_calls.append(dict(b))
+                yield b
+                return
         if allow_extra and op["op"] == "encode" and rng.random() < 0.3:
             ms = list(re.finditer(r"([A-Za-z\]])(\d)(\d)", op["s"]))
             if ms:
